@@ -95,6 +95,16 @@ def foldlOpt (f : β → α → Option β) : β → List α → Option β
     | some b' => foldlOpt f b' xs
     | none => none
 
+/-- `'%d' % i` (also `%u`, which CPython treats as `%d`) -/
+def fmtD (i : Int) : Str := if i < 0 then '-' :: Text.natToStr (-i).toNat else Text.natToStr i.toNat
+
+/-- position of the first element equal to `v` -/
+def indexOfNat [BEq α] : List α → α → Option Nat
+  | [], _ => none
+  | x :: xs, v => if x == v then some 0 else (indexOfNat xs v).map (· + 1)
+/-- `xs.index(v)` (`ValueError` when absent) -/
+def indexOf [BEq α] (xs : List α) (v : α) : Option Int := (indexOfNat xs v).map Int.ofNat
+
 /-! ### the definitions agree with CPython on sampled values (expected values computed with CPython 3.12) -/
 example : band (-6) 29 = 24 ∧ band 29 (-6) = 24 ∧ band (-6) (-29) = -30 ∧ band 4242 999 = 130 := by decide
 example : bor (-6) 29 = -1 ∧ bor 29 (-7) = -3 ∧ bor (-6) (-29) = -5 ∧ bor 4242 999 = 5111 ∧ bor (-100) 33 = -67 := by decide
@@ -106,6 +116,9 @@ example : slice [1, 2, 3, 4, 5] 1 (-1) = [2, 3, 4] ∧ slice [1, 2, 3, 4, 5] (-2
     ∧ slice [1, 2, 3] (-7) 2 = [1, 2] ∧ sliceFrom [1, 2, 3] (-1) = [3] ∧ sliceTo [1, 2, 3] (-1) = [1, 2] ∧ sliceTo [1, 2, 3] (-5) = ([] : List Nat) := by decide
 example : getItem [1, 2, 3] (-1) = some 3 ∧ getItem [1, 2, 3] 3 = none ∧ getItem [1, 2, 3] (-4) = (none : Option Nat)
     ∧ setItem [1, 2, 3] (-3) 9 = some [9, 2, 3] ∧ setItem [1, 2, 3] 3 9 = none := by decide
+
+example : fmtD 0 = ['0'] ∧ fmtD (-12) = ['-', '1', '2'] ∧ fmtD 3072 = ['3', '0', '7', '2'] := by decide
+example : indexOf [(0 : Int), 2, 3, 1, -1] 1 = some 3 ∧ indexOf [(0 : Int), 2, 3, 1, -1] 7 = none ∧ indexOf [(5 : Int), 5] 5 = some 0 := by decide
 
 end Py
 end SshAudit
